@@ -28,6 +28,10 @@ KNOTE = "trusted: go/ssa, the interpreter fork, the filesystem stubs of DESIGN ย
 CHECKS["C15"] = ("other", "symbolic execution of the real Install/InstallFile (go/ssa incl. deferred cleanup) with crash position and failing step as symbolic integers decided by z3: every crash point between/inside the filesystem steps and every single injected fault over the whole embedded tree is covered path-completely; per path the model filesystem must show every destination untouched or complete with mode 0644, failures reported, no temp file left, fault-free run complete", KNOTE, "symbolic execution of go/ssa with a nondeterministic filesystem stub; crash/fault positions are solver-decided symbolic integers", "ยง5 C15")
 CHECKS["C16"] = ("other", "symbolic execution of the real Install/ResolvePath/ValidatePath and agent methods for all 9 agents with --path, $HOME and cwd as symbolic strings: every mutating filesystem event is proved (unsat str.prefixof query) to lie under <base>/<skill name> with base taken from the README table parsed at check time; installed tree = on-disk skill tree; registry = kong sub-commands = README list", KNOTE, "symbolic execution of go/ssa with symbolic path strings; SMT string prefix/equality queries (portfolio)", "ยง5 C16")
 
+CHECKS["C09"] = ("other", "path-complete bounded execution of the real detectCycles (every edge relation over n nodes, diagnostics must be a closed walk naming its types), the real NewGraph (every small declaration over type tokens against a reference for duplicate / orphan Struct / reachable cycle) and the real Processor.ProcessFiles with ParseFile/CreateInjector/os.Create/Generate failing at every position (refusal => no output created, non-nil error; main => exit 1); plus CLI gates: planted-invalid declarations refused with the stale output file untouched, valid corpus declarations accepted with one function each",
+  "trusted: go/ssa, the interpreter fork, stubs for the parser/generator/os.Create under processFile; refusals arising inside the parser (Bind, field extraction, Set flattening) are reached only by the CLI gates (go/types and packages.Load are not executable in the interpreter); bounds: graphs <= 4 nodes, <= 3 providers over <= 3 type tokens, 2 files",
+  "symbolic interpreter over go/ssa: path-complete bounded execution (forks on nondeterministic inputs; the quantifier is program structure, so solver work is feasibility only) + CLI gates", "ยง5 C09")
+
 NA_REASON = "check under construction in this session (DESIGN.md ยง10 build order); not claimed yet"
 
 def main():
